@@ -18,6 +18,13 @@ unsigned char  gf_cell_val;
 #define GF_PUT8(p, t, v) { GF_PUT1(p, t, v, 0); GF_PUT1(p, t, v, 1); GF_PUT1(p, t, v, 2); GF_PUT1(p, t, v, 3); \
                               GF_PUT1(p, t, v, 4); GF_PUT1(p, t, v, 5); GF_PUT1(p, t, v, 6); GF_PUT1(p, t, v, 7); }
 
+/* every harness calls this first: under --dfcc all statics start nondeterministic */
+static void gf_reset(void) {
+    gf_script_n = 0; gf_script_i = 0; gf_noscript_ptr = NULL;
+    gf_cell_mode = 0; gf_cell_valid = 0; gf_cell_addr = NULL; gf_cell_val = 0;
+    verif_errno = 0;
+}
+
 static gfile_t* gf_of(FILE* f) {
     if (f == GF_FILE(0)) return &gf[0];
     VASSERT(f == GF_FILE(1), "gfile: stdio call on an unknown FILE*");
